@@ -122,7 +122,7 @@ def c03_configs(tier, seed):
     cfgs = []
     # (np, PPN): PPN divides np (or a single node) in the main grid; ragged last nodes are separate
     # configurations because the node-aware construction deadlocks there (known finding)
-    for n, ppn in nps(tier, [(1, 2), (2, 2), (3, 3), (4, 2), (6, 3), (3, 2)],
+    for n, ppn in nps(tier, [(1, 2), (2, 2), (3, 3), (4, 2), (6, 3), (6, 1), (8, 2), (3, 2)],
                       [(1, 1), (2, 1), (2, 2), (3, 3), (4, 2), (5, 5), (6, 2), (6, 3), (8, 4), (9, 3), (12, 4), (16, 4), (3, 2), (5, 3), (7, 4)]):
         c = {"tag": f"h_c03-np{n}-ppn{ppn}", "harness": "h_c03", "np": n, "env": {"PPN": ppn}}
         if n % ppn and n > ppn:
@@ -148,7 +148,7 @@ PROPS["C03"] = dict(
 def c04_configs(tier, seed):
     cfgs = []
     # (np, PPN, ordering); ragged last nodes (PPN not dividing np) are separate: known finding
-    quick = [(2, 1, 1), (2, 2, 1), (4, 2, 0), (4, 2, 1), (4, 2, 2), (6, 2, 1), (6, 3, 2), (4, 4, 1), (3, 2, 1)]
+    quick = [(2, 1, 1), (2, 2, 1), (4, 2, 0), (4, 2, 1), (4, 2, 2), (6, 2, 1), (6, 3, 2), (8, 2, 1), (6, 1, 0), (4, 4, 1), (3, 2, 1)]
     thorough = [(n, p, o) for n in (2, 3, 4, 6, 8, 9, 12, 16) for p in (1, 2, 3, 4, 8, 16) if p <= n and n % p == 0 for o in (0, 1, 2)]
     thorough += [(3, 2, 1), (5, 2, 0), (5, 3, 2), (7, 4, 1)]
     for n, ppn, o in nps(tier, quick, thorough):
@@ -161,7 +161,7 @@ def c04_configs(tier, seed):
             cfgs.append(c)
     # the exchanges of C03 (forward, reverse, sparse rows with values; three- and two-step packages against the
     # specification) on multi-node layouts: an exchange that meets the specification is equivalent to the standard one
-    for n, ppn in nps(tier, [(4, 2), (6, 3)], [(4, 2), (6, 2), (6, 3), (8, 2), (8, 4), (12, 4), (16, 4)]):
+    for n, ppn in nps(tier, [(4, 2), (6, 3), (8, 2), (6, 1)], [(4, 2), (6, 1), (6, 2), (6, 3), (8, 2), (8, 4), (12, 4), (16, 4)]):
         cfgs.append({"tag": f"h_c03-np{n}-ppn{ppn}", "harness": "h_c03", "np": n, "env": {"PPN": ppn}})
     return cfgs
 
